@@ -5,29 +5,12 @@
 //!   vcheck replay <file>                     re-execute a saved failing case (exit 1 if it still fails)
 //!   vcheck merge <out> <in>...               merge per-profile evidence files
 
-mod common;
-mod entry;
-mod matrix;
-mod programs;
 
-mod c01;
 
-mod c02;
-mod c03;
-mod c04;
-mod c05;
-mod c06;
-mod c07;
-mod c08;
-mod c09;
-mod c13;
-mod structure;
-mod c10;
-mod c11;
-mod c12;
-mod c14;
 
 use std::path::Path;
+
+use vchecks::*;
 
 use vcore::serde_json::{json, Value as J};
 use vcore::{Report, Tier};
